@@ -177,6 +177,9 @@ def run(chk):
                       "ResponseHandler.close() only calls transport.close(), which waits for the write buffer to be flushed: after a sock_read timeout of a POST whose unsent tail (below the 64 KiB high-water mark) sits in the buffer of a peer that never reads, the socket is still open after the timeout and after session.close() - the connector has forgotten it, nothing will ever close it")
     # ---- close --------------------------------------------------------------------------------------------------------------
     chk.include(C06.run, ("C06.closeonerror",), ("C06.closeonerror", "C18.close"))
+    # the request's timer (total timeout) reaches the body stream through the parser built for this request: a parser kept from the previous
+    # request on the connection carries that request's timer, already cancelled - a stalled body of the next request is never timed out
+    chk.include(C06.run, ("C06.fresh",), ("C06.fresh", "C18.timer.fresh"))
     for q in ("ClientResponse.close", "ClientResponse.release", "ClientResponse._response_eof"):
         f = repo.func(REQ, q)
         g = cfg_of(f.node)
